@@ -608,7 +608,11 @@ class QuorumSensing:
         abstain_votes: list[Vote]
     ) -> QuorumResult:
         """Fixed threshold count (e.g., need exactly N permits)."""
-        threshold = int(self.custom_threshold or len(self.colony) // 2 + 1)
+        threshold = self.custom_threshold or len(self.colony) // 2 + 1
+        if threshold < 1:
+            # A fractional threshold is a share of the colony (EmergencyQuorum passes 0.3)
+            threshold = math.ceil(threshold * len(self.colony))
+        threshold = max(1, int(threshold))
 
         reached = len(permit_votes) >= threshold
         decision = VoteType.PERMIT if reached else VoteType.BLOCK
